@@ -1,1 +1,778 @@
-// Correspondence suites for property C07. Each suite is a #[test] fn named verif_c07_<suite>.
+// Correspondence suites for property C07 (secure arithmetic and Boolean circuits compute the stated
+// plaintext functions). Each suite is a #[test] fn named verif_c07_<suite>.
+//
+// One request line = ONE TestWorld run of the real protocol on a batch of operand pairs (vector lanes or
+// records), in mode `sh` (semi-honest, DZKP-upgraded semi-honest context for the Boolean circuits) or `mal`
+// (DZKP-malicious context, validated with `validate()` before the outputs are used).
+//
+//   c07.mul <Field> <mode> <as> <bs>                 -> <products> <ok|inconsistent>
+//   c07.vmul <mode> <W> <as> <bs>                    -> Boolean multiplication on W lanes (bits)
+//   c07.add|satadd|gt|mulint|or|and <mode> <W> <n> <m> <xs> <ys>   (W lanes, |x| = n bits, |y| = m bits)
+//        add    -> <sums> <carries> <flag>
+//        others -> <values> <flag>
+//   c07.sub|geq <mode> <n> <m> <xs> <ys>            (N = 1, one record per pair) -> <values> <flag>
+//   c07.satsub <mode> <BAw> <xs> <ys>               -> <values> <flag>
+//   c07.select <mode> <BAw> <conds> <ts> <fs>       -> <values> <flag>
+//   c07.agg <mode> <B> <w> <tv> <row/row/…>         (B columns, output width w, input width tv) -> <values> <flag>
+//   c07.orf <Field> <as> <bs>                       -> <values> <flag>     (a, b in {0,1})
+//   c07.known <Field> <v>                           -> <v> <flag>
+//   c07.reshare <Field> <to> <vs>                   -> <values> <flag>
+//   c07.conv <mode> <bits> <xs>                     -> <values mod l> <flag>
+//   c07.prf <k> <xs>                                -> match | mismatch …
+// Values are decimal; the flag says whether every output sharing was consistent between adjacent helpers.
+use std::{array, iter::repeat};
+
+use futures::stream::iter as stream_iter;
+use futures_util::{StreamExt, TryStreamExt};
+
+use super::proto::*;
+use crate::{
+    ff::{
+        Field, Fp31, Fp32BitPrime, Fp61BitPrime, Gf2, Gf3Bit, Gf8Bit, Gf9Bit, Gf20Bit,
+        Gf32Bit, Gf40Bit, U128Conversions,
+        boolean::Boolean,
+        boolean_array::{BA3, BA5, BA8, BA16, BA20, BA32, BA64},
+    },
+    helpers::Role,
+    protocol::{
+        RecordId,
+        basics::{Reshare, SecureMul, ShareKnownValue, select},
+        boolean::{and::bool_and_8_bit, or::bool_or, or::or, step::DefaultBitStep},
+        context::{Context, TEST_DZKP_STEPS, UpgradableContext, dzkp_validator::DZKPValidator},
+        ipa_prf::{
+            aggregation::aggregate_values,
+            boolean_ops::{
+                addition_sequential::{integer_add, integer_sat_add},
+                comparison_and_subtraction_sequential::{
+                    compare_geq, compare_gt, integer_sat_sub, integer_sub,
+                },
+                ipa_verif_integer_mul as integer_mul,
+            },
+        },
+    },
+    secret_sharing::{
+        BitDecomposed, SharedValue, Vectorizable,
+        replicated::{ReplicatedSecretSharing, semi_honest::AdditiveShare},
+    },
+    seq_join::{SeqJoin, seq_join},
+    test_fixture::{Runner, TestWorld, TestWorldConfig},
+};
+
+const RUN_TIMEOUT_S: u64 = 60;
+
+fn seed_of(req: &str) -> u64 {
+    let mut h = 0xcbf2_9ce4_8422_2325u64;
+    for b in req.bytes() {
+        h = (h ^ u64::from(b)).wrapping_mul(0x0000_0100_0000_01B3);
+    }
+    h
+}
+
+fn world(req: &str) -> TestWorld {
+    TestWorld::new_with(TestWorldConfig::default().with_seed(seed_of(req)).with_timeout_secs(RUN_TIMEOUT_S))
+}
+
+fn flag(ok: bool) -> &'static str {
+    if ok { "ok" } else { "inconsistent" }
+}
+
+/// reconstruct one vectorised sharing without asserting; returns (value array, consistent?)
+fn recon<V, const N: usize>(s: [&AdditiveShare<V, N>; 3]) -> (<V as Vectorizable<N>>::Array, bool)
+where
+    V: SharedValue + Vectorizable<N>,
+{
+    let ok = s[0].right_arr() == s[1].left_arr()
+        && s[1].right_arr() == s[2].left_arr()
+        && s[2].right_arr() == s[0].left_arr();
+    (s[0].left_arr().clone() + s[1].left_arr() + s[2].left_arr(), ok)
+}
+
+/// bits (LSB first) of `N` lanes -> per-lane values, plus consistency of every bit sharing
+fn recon_bits<const N: usize>(s: &[BitDecomposed<AdditiveShare<Boolean, N>>; 3]) -> (Vec<u128>, bool)
+where
+    Boolean: Vectorizable<N>,
+{
+    let mut vals = vec![0u128; N];
+    let mut ok = s[0].len() == s[1].len() && s[1].len() == s[2].len();
+    for i in 0..s[0].len() {
+        let (arr, c) = recon([&s[0][i], &s[1][i], &s[2][i]]);
+        ok &= c;
+        for (v, b) in vals.iter_mut().zip(arr.into_iter()) {
+            if bool::from(b) {
+                *v |= 1u128 << i;
+            }
+        }
+    }
+    (vals, ok)
+}
+
+fn lanes<const N: usize>(bits: usize, xs: &[u128]) -> BitDecomposed<[Boolean; N]> {
+    BitDecomposed::new((0..bits).map(|i| array::from_fn(|lane| Boolean::from((xs.get(lane).copied().unwrap_or(0) >> i) & 1 == 1))))
+}
+
+fn scalar_bits(bits: usize, x: u128) -> BitDecomposed<Boolean> {
+    BitDecomposed::new((0..bits).map(|i| Boolean::from((x >> i) & 1 == 1)))
+}
+
+// ---------------------------------------------------------------- vectorised Boolean circuits
+macro_rules! vec_ops_fn {
+    ($fname:ident, $method:ident, $N:literal) => {
+        fn $fname(req: &str, op: &str, n: usize, m: usize, xs: &[u128], ys: &[u128]) -> String {
+            const N: usize = $N;
+            let used = xs.len().min(N);
+            let xb = lanes::<N>(n, xs);
+            let yb = lanes::<N>(m, ys);
+            let op = op.to_string();
+            let res = block_on_timeout(RUN_TIMEOUT_S + 5, async {
+                let w = world(req);
+                w.$method((xb, yb), |ctx, (x, y): (BitDecomposed<AdditiveShare<Boolean, N>>, BitDecomposed<AdditiveShare<Boolean, N>>)| {
+                    let op = op.clone();
+                    async move {
+                        let v = ctx.set_total_records(1).dzkp_validator(TEST_DZKP_STEPS, 8);
+                        let c = v.context();
+                        let rid = RecordId::FIRST;
+                        let out: BitDecomposed<AdditiveShare<Boolean, N>> = match op.as_str() {
+                            "add" => {
+                                let (mut s, carry) = integer_add::<_, DefaultBitStep, N>(c, rid, &x, &y).await.unwrap();
+                                s.push(carry);
+                                s
+                            }
+                            "satadd" => integer_sat_add::<_, DefaultBitStep, N>(c, rid, &x, &y).await.unwrap(),
+                            "gt" => BitDecomposed::new([compare_gt::<_, DefaultBitStep, N>(c, rid, &x, &y).await.unwrap()]),
+                            "mulint" => integer_mul::<_, DefaultBitStep, N>(c, rid, &x, &y).await.unwrap(),
+                            "or" => bool_or::<_, DefaultBitStep, _, N>(c, rid, &x, y.iter()).await.unwrap(),
+                            "and" => bool_and_8_bit(c, rid, &x, y.iter()).await.unwrap(),
+                            "vmul" => BitDecomposed::new([x[0].multiply(&y[0], c, rid).await.unwrap()]),
+                            o => panic!("harness: unknown vector op {o}"),
+                        };
+                        v.validate().await.unwrap();
+                        out
+                    }
+                })
+                .await
+            });
+            let res = match res {
+                Ok(r) => r,
+                Err(e) => return e,
+            };
+            let (vals, ok) = recon_bits::<N>(&res);
+            let vals = &vals[..used];
+            match op.as_str() {
+                "add" => {
+                    let mask = if n >= 128 { u128::MAX } else { (1u128 << n) - 1 };
+                    let sums: Vec<u128> = vals.iter().map(|v| v & mask).collect();
+                    let carries: Vec<u128> = vals.iter().map(|v| if n >= 128 { 0 } else { v >> n }).collect();
+                    format!("{} {} {} {}", res[0].len(), nat_list(&sums), nat_list(&carries), flag(ok))
+                }
+                _ => format!("{} {} {}", res[0].len(), nat_list(vals), flag(ok)),
+            }
+        }
+    };
+}
+
+vec_ops_fn!(vec_sh_1, semi_honest, 1);
+vec_ops_fn!(vec_sh_3, semi_honest, 3);
+vec_ops_fn!(vec_sh_8, semi_honest, 8);
+vec_ops_fn!(vec_sh_16, semi_honest, 16);
+vec_ops_fn!(vec_sh_32, semi_honest, 32);
+vec_ops_fn!(vec_sh_256, semi_honest, 256);
+vec_ops_fn!(vec_mal_1, malicious, 1);
+vec_ops_fn!(vec_mal_16, malicious, 16);
+vec_ops_fn!(vec_mal_32, malicious, 32);
+vec_ops_fn!(vec_mal_256, malicious, 256);
+
+fn vec_dispatch(req: &str, op: &str, mode: &str, w: usize, n: usize, m: usize, xs: &[u128], ys: &[u128]) -> String {
+    match (mode, w) {
+        ("sh", 1) => vec_sh_1(req, op, n, m, xs, ys),
+        ("sh", 3) => vec_sh_3(req, op, n, m, xs, ys),
+        ("sh", 8) => vec_sh_8(req, op, n, m, xs, ys),
+        ("sh", 16) => vec_sh_16(req, op, n, m, xs, ys),
+        ("sh", 32) => vec_sh_32(req, op, n, m, xs, ys),
+        ("sh", 256) => vec_sh_256(req, op, n, m, xs, ys),
+        ("mal", 1) => vec_mal_1(req, op, n, m, xs, ys),
+        ("mal", 16) => vec_mal_16(req, op, n, m, xs, ys),
+        ("mal", 32) => vec_mal_32(req, op, n, m, xs, ys),
+        ("mal", 256) => vec_mal_256(req, op, n, m, xs, ys),
+        _ => panic!("harness: no BooleanProtocols impl for mode {mode} width {w}"),
+    }
+}
+
+// ---------------------------------------------------------------- N = 1 circuits, one record per pair
+macro_rules! rec_ops_fn {
+    ($fname:ident, $method:ident) => {
+        fn $fname(req: &str, op: &str, n: usize, m: usize, xs: &[u128], ys: &[u128]) -> String {
+            let inputs: Vec<(BitDecomposed<Boolean>, BitDecomposed<Boolean>)> =
+                xs.iter().zip(ys.iter()).map(|(&x, &y)| (scalar_bits(n, x), scalar_bits(m, y))).collect();
+            let cnt = inputs.len();
+            let op = op.to_string();
+            let res = block_on_timeout(RUN_TIMEOUT_S + 5, async {
+                let w = world(req);
+                w.$method(inputs.into_iter(), |ctx, shares: Vec<(BitDecomposed<AdditiveShare<Boolean>>, BitDecomposed<AdditiveShare<Boolean>>)>| {
+                    let op = op.clone();
+                    async move {
+                        let v = ctx.set_total_records(cnt).dzkp_validator(TEST_DZKP_STEPS, cnt);
+                        let c = v.context();
+                        let outs: Vec<BitDecomposed<AdditiveShare<Boolean>>> = seq_join(
+                            c.active_work(),
+                            stream_iter(shares.into_iter().zip(repeat((c.clone(), op))).enumerate().map(|(i, ((x, y), (c, op)))| async move {
+                                let rid = RecordId::from(i);
+                                match op.as_str() {
+                                    "sub" => integer_sub::<_, DefaultBitStep>(c, rid, &x, &y).await,
+                                    "geq" => compare_geq::<_, DefaultBitStep>(c, rid, &x, &y).await.map(|b| BitDecomposed::new([b])),
+                                    o => panic!("harness: unknown record op {o}"),
+                                }
+                            })),
+                        )
+                        .try_collect()
+                        .await
+                        .unwrap();
+                        v.validate().await.unwrap();
+                        outs
+                    }
+                })
+                .await
+            });
+            let res = match res {
+                Ok(r) => r,
+                Err(e) => return e,
+            };
+            let mut vals = vec![];
+            let mut ok = res[0].len() == cnt && res[1].len() == cnt && res[2].len() == cnt;
+            let mut len = 0;
+            for i in 0..res[0].len() {
+                let (v, c) = recon_bits::<1>(&[res[0][i].clone(), res[1][i].clone(), res[2][i].clone()]);
+                len = res[0][i].len();
+                vals.push(v[0]);
+                ok &= c;
+            }
+            format!("{} {} {}", len, nat_list(&vals), flag(ok))
+        }
+    };
+}
+rec_ops_fn!(rec_sh, semi_honest);
+rec_ops_fn!(rec_mal, malicious);
+
+// ---------------------------------------------------------------- boolean-array typed circuits (sat_sub, select)
+macro_rules! ba_ops_fn {
+    ($fname:ident, $method:ident, $BA:ty) => {
+        fn $fname(req: &str, op: &str, cs: &[u128], xs: &[u128], ys: &[u128]) -> String {
+            let inputs: Vec<(Boolean, ($BA, $BA))> = (0..xs.len())
+                .map(|i| (Boolean::from(cs.get(i).copied().unwrap_or(0) & 1 == 1), (<$BA>::truncate_from(xs[i]), <$BA>::truncate_from(ys[i]))))
+                .collect();
+            let cnt = inputs.len();
+            let op = op.to_string();
+            let res = block_on_timeout(RUN_TIMEOUT_S + 5, async {
+                let w = world(req);
+                w.$method(inputs.into_iter(), |ctx, shares: Vec<(AdditiveShare<Boolean>, (AdditiveShare<$BA>, AdditiveShare<$BA>))>| {
+                    let op = op.clone();
+                    async move {
+                        let v = ctx.set_total_records(cnt).dzkp_validator(TEST_DZKP_STEPS, cnt);
+                        let c = v.context();
+                        let outs: Vec<AdditiveShare<$BA>> = seq_join(
+                            c.active_work(),
+                            stream_iter(shares.into_iter().zip(repeat((c.clone(), op))).enumerate().map(|(i, ((cond, (x, y)), (c, op)))| async move {
+                                let rid = RecordId::from(i);
+                                match op.as_str() {
+                                    "satsub" => integer_sat_sub::<_, $BA, DefaultBitStep>(c, rid, &x, &y).await,
+                                    "select" => select(c, rid, &cond, &x, &y).await,
+                                    o => panic!("harness: unknown BA op {o}"),
+                                }
+                            })),
+                        )
+                        .try_collect()
+                        .await
+                        .unwrap();
+                        v.validate().await.unwrap();
+                        outs
+                    }
+                })
+                .await
+            });
+            let res = match res {
+                Ok(r) => r,
+                Err(e) => return e,
+            };
+            let mut vals = vec![];
+            let mut ok = res[0].len() == cnt && res[1].len() == cnt && res[2].len() == cnt;
+            for i in 0..res[0].len() {
+                let (v, c) = recon::<$BA, 1>([&res[0][i], &res[1][i], &res[2][i]]);
+                vals.push(v.into_iter().next().unwrap().as_u128());
+                ok &= c;
+            }
+            format!("{} {}", nat_list(&vals), flag(ok))
+        }
+    };
+}
+
+macro_rules! ba_dispatch {
+    ($(($w:literal, $BA:ty, $sh:ident, $mal:ident)),*) => {
+        $( ba_ops_fn!($sh, semi_honest, $BA); ba_ops_fn!($mal, malicious, $BA); )*
+        fn ba_dispatch(req: &str, op: &str, mode: &str, w: usize, cs: &[u128], xs: &[u128], ys: &[u128]) -> String {
+            match (mode, w) {
+                $( ("sh", $w) => $sh(req, op, cs, xs, ys), ("mal", $w) => $mal(req, op, cs, xs, ys), )*
+                _ => panic!("harness: no boolean array of width {w}"),
+            }
+        }
+    };
+}
+ba_dispatch!(
+    (3, BA3, ba_sh_3, ba_mal_3),
+    (5, BA5, ba_sh_5, ba_mal_5),
+    (8, BA8, ba_sh_8, ba_mal_8),
+    (16, BA16, ba_sh_16, ba_mal_16),
+    (20, BA20, ba_sh_20, ba_mal_20),
+    (32, BA32, ba_sh_32, ba_mal_32),
+    (64, BA64, ba_sh_64, ba_mal_64)
+);
+
+// ---------------------------------------------------------------- multiplication / or / known value / reshare over every Field
+fn field_ops<F>(req: &str, op: &str, arg: usize, xs: &[u128], ys: &[u128]) -> String
+where
+    F: Field + U128Conversions,
+    rand::distributions::Standard: rand::distributions::Distribution<F>,
+{
+    let inputs: Vec<(F, F)> = (0..xs.len()).map(|i| (F::truncate_from(xs[i]), F::truncate_from(ys.get(i).copied().unwrap_or(0)))).collect();
+    let cnt = inputs.len();
+    let op = op.to_string();
+    let res = block_on_timeout(RUN_TIMEOUT_S + 5, async {
+        let w = world(req);
+        w.semi_honest(inputs.into_iter(), |ctx, shares: Vec<(AdditiveShare<F>, AdditiveShare<F>)>| {
+            let op = op.clone();
+            async move {
+                let c = ctx.set_total_records(cnt);
+                let outs: Vec<AdditiveShare<F>> = seq_join(
+                    c.active_work(),
+                    stream_iter(shares.into_iter().zip(repeat((c.clone(), op))).enumerate().map(|(i, ((x, y), (c, op)))| async move {
+                        let rid = RecordId::from(i);
+                        match op.as_str() {
+                            "mul" => x.multiply(&y, c, rid).await,
+                            "orf" => or(c, rid, &x, &y).await,
+                            "reshare" => x.reshare(c, rid, [Role::H1, Role::H2, Role::H3][arg - 1]).await,
+                            "known" => Ok(AdditiveShare::<F>::share_known_value(&c, F::truncate_from(arg as u128))),
+                            o => panic!("harness: unknown field op {o}"),
+                        }
+                    })),
+                )
+                .try_collect()
+                .await
+                .unwrap();
+                outs
+            }
+        })
+        .await
+    });
+    let res = match res {
+        Ok(r) => r,
+        Err(e) => return e,
+    };
+    let mut vals = vec![];
+    let mut ok = res[0].len() == cnt && res[1].len() == cnt && res[2].len() == cnt;
+    for i in 0..res[0].len() {
+        let (v, c) = recon::<F, 1>([&res[0][i], &res[1][i], &res[2][i]]);
+        vals.push(v.into_iter().next().unwrap().as_u128());
+        ok &= c;
+    }
+    format!("{} {}", nat_list(&vals), flag(ok))
+}
+
+fn field_dispatch(req: &str, field: &str, op: &str, arg: usize, xs: &[u128], ys: &[u128]) -> String {
+    match field {
+        "Fp31" => field_ops::<Fp31>(req, op, arg, xs, ys),
+        "Fp32BitPrime" => field_ops::<Fp32BitPrime>(req, op, arg, xs, ys),
+        "Fp61BitPrime" => field_ops::<Fp61BitPrime>(req, op, arg, xs, ys),
+        "Boolean" => field_ops::<Boolean>(req, op, arg, xs, ys),
+        "Gf2" => field_ops::<Gf2>(req, op, arg, xs, ys),
+        "Gf3Bit" => field_ops::<Gf3Bit>(req, op, arg, xs, ys),
+        "Gf8Bit" => field_ops::<Gf8Bit>(req, op, arg, xs, ys),
+        "Gf9Bit" => field_ops::<Gf9Bit>(req, op, arg, xs, ys),
+        "Gf20Bit" => field_ops::<Gf20Bit>(req, op, arg, xs, ys),
+        "Gf32Bit" => field_ops::<Gf32Bit>(req, op, arg, xs, ys),
+        "Gf40Bit" => field_ops::<Gf40Bit>(req, op, arg, xs, ys),
+        f => panic!("harness: unknown field {f}"),
+    }
+}
+
+// ---------------------------------------------------------------- aggregation (B columns)
+macro_rules! agg_fn {
+    ($fname:ident, $method:ident, $B:literal, $OV:ty) => {
+        fn $fname(req: &str, tv: usize, rows: &[Vec<u128>]) -> String {
+            const B: usize = $B;
+            let inputs: Vec<BitDecomposed<[Boolean; B]>> = rows.iter().map(|r| lanes::<B>(tv, r)).collect();
+            let used = rows.first().map_or(B, |r| r.len().min(B));
+            let res = block_on_timeout(RUN_TIMEOUT_S + 5, async {
+                let w = world(req);
+                w.$method(inputs.into_iter(), |ctx, rows: Vec<BitDecomposed<AdditiveShare<Boolean, B>>>| async move {
+                    let v = ctx.dzkp_validator(TEST_DZKP_STEPS, usize::MAX);
+                    let c = v.context();
+                    let n = rows.len();
+                    let out = aggregate_values::<_, $OV, B>(c, stream_iter(rows.into_iter().map(Ok)).boxed(), n, None).await.unwrap();
+                    v.validate().await.unwrap();
+                    out
+                })
+                .await
+            });
+            let res = match res {
+                Ok(r) => r,
+                Err(e) => return e,
+            };
+            let (vals, ok) = recon_bits::<B>(&res);
+            format!("{} {} {}", res[0].len(), nat_list(&vals[..used]), flag(ok))
+        }
+    };
+}
+agg_fn!(agg_sh_8_8, semi_honest, 8, BA8);
+agg_fn!(agg_sh_16_8, semi_honest, 16, BA8);
+agg_fn!(agg_sh_32_16, semi_honest, 32, BA16);
+agg_fn!(agg_sh_256_32, semi_honest, 256, BA32);
+agg_fn!(agg_sh_32_3, semi_honest, 32, BA3);
+agg_fn!(agg_sh_32_5, semi_honest, 32, BA5);
+agg_fn!(agg_mal_16_8, malicious, 16, BA8);
+agg_fn!(agg_mal_32_16, malicious, 32, BA16);
+agg_fn!(agg_mal_256_32, malicious, 256, BA32);
+agg_fn!(agg_mal_32_3, malicious, 32, BA3);
+agg_fn!(agg_mal_32_5, malicious, 32, BA5);
+
+fn agg_dispatch(req: &str, mode: &str, b: usize, w: usize, tv: usize, rows: &[Vec<u128>]) -> String {
+    match (mode, b, w) {
+        ("sh", 8, 8) => agg_sh_8_8(req, tv, rows),
+        ("sh", 16, 8) => agg_sh_16_8(req, tv, rows),
+        ("sh", 32, 16) => agg_sh_32_16(req, tv, rows),
+        ("sh", 256, 32) => agg_sh_256_32(req, tv, rows),
+        ("sh", 32, 3) => agg_sh_32_3(req, tv, rows),
+        ("sh", 32, 5) => agg_sh_32_5(req, tv, rows),
+        ("mal", 16, 8) => agg_mal_16_8(req, tv, rows),
+        ("mal", 32, 16) => agg_mal_32_16(req, tv, rows),
+        ("mal", 256, 32) => agg_mal_256_32(req, tv, rows),
+        ("mal", 32, 3) => agg_mal_32_3(req, tv, rows),
+        ("mal", 32, 5) => agg_mal_32_5(req, tv, rows),
+        _ => panic!("harness: no aggregate_values instantiation for mode {mode} B={b} OV=BA{w}"),
+    }
+}
+
+pub fn exec(req: &str) -> String {
+    let t: Vec<&str> = req.split(' ').collect();
+    let l = |s: &str| parse_nat_list::<u128>(s);
+    let u = |s: &str| s.parse::<usize>().unwrap();
+    match t[0] {
+        "c07.mul" | "c07.orf" => field_dispatch(req, t[1], &t[0][4..], 0, &l(t[2]), &l(t[3])),
+        "c07.known" => field_dispatch(req, t[1], "known", u(t[2]), &[0], &[0]),
+        "c07.reshare" => field_dispatch(req, t[1], "reshare", u(t[2]), &l(t[3]), &[]),
+        "c07.vmul" => vec_dispatch(req, "vmul", t[1], u(t[2]), 1, 1, &l(t[3]), &l(t[4])),
+        "c07.add" | "c07.satadd" | "c07.gt" | "c07.mulint" | "c07.or" | "c07.and" => {
+            vec_dispatch(req, &t[0][4..], t[1], u(t[2]), u(t[3]), u(t[4]), &l(t[5]), &l(t[6]))
+        }
+        "c07.sub" | "c07.geq" => match t[1] {
+            "sh" => rec_sh(req, &t[0][4..], u(t[2]), u(t[3]), &l(t[4]), &l(t[5])),
+            "mal" => rec_mal(req, &t[0][4..], u(t[2]), u(t[3]), &l(t[4]), &l(t[5])),
+            m => panic!("harness: unknown mode {m}"),
+        },
+        "c07.satsub" => ba_dispatch(req, "satsub", t[1], u(t[2]), &[], &l(t[3]), &l(t[4])),
+        "c07.select" => ba_dispatch(req, "select", t[1], u(t[2]), &l(t[3]), &l(t[4]), &l(t[5])),
+        "c07.agg" => {
+            let rows: Vec<Vec<u128>> = if t[5] == "-" { vec![] } else { t[5].split('/').map(l).collect() };
+            agg_dispatch(req, t[1], u(t[2]), u(t[3]), u(t[4]), &rows)
+        }
+        _ => panic!("harness: unknown request {req}"),
+    }
+}
+
+// ---------------------------------------------------------------- generators
+fn boundary_vals(bits: usize) -> Vec<u128> {
+    if bits == 0 {
+        return vec![0];
+    }
+    let max = if bits >= 128 { u128::MAX } else { (1u128 << bits) - 1 };
+    let mut v = vec![0, 1, 2, max, max - 1, max / 2, max / 2 + 1];
+    for k in 0..bits.min(127) {
+        v.push(1u128 << k);
+        v.push((1u128 << k) - 1);
+        v.push(((1u128 << k) + 1) & max);
+    }
+    v.iter_mut().for_each(|x| *x &= max);
+    v.sort_unstable();
+    v.dedup();
+    v
+}
+
+fn rand_bits(rng: &mut Rng, bits: usize) -> u128 {
+    if bits == 0 {
+        0
+    } else if bits >= 128 {
+        rng.next_u128()
+    } else {
+        rng.next_u128() & ((1u128 << bits) - 1)
+    }
+}
+
+/// operand pairs for widths (n, m): boundary x boundary (thinned), equal, x = y ± 1, random; `cap` pairs.
+fn pairs(rng: &mut Rng, n: usize, m: usize, cap: usize) -> (Vec<u128>, Vec<u128>) {
+    let (bx, by) = (boundary_vals(n), boundary_vals(m));
+    let mut ps: Vec<(u128, u128)> = vec![];
+    let maxx = if n >= 128 { u128::MAX } else { (1u128 << n) - 1 };
+    let maxy = if m >= 128 { u128::MAX } else { (1u128 << m) - 1 };
+    for &x in &bx {
+        for &y in &by {
+            if x < 3 || y < 3 || x + 2 > maxx || y + 2 > maxy || x == y || (x ^ y) % 5 == 0 {
+                ps.push((x, y));
+            }
+        }
+    }
+    for _ in 0..8 {
+        let x = rand_bits(rng, n.min(m));
+        ps.push((x, x));
+        ps.push((x, x.wrapping_add(1) & maxy));
+        ps.push((x.wrapping_add(1) & maxx, x));
+        // saturation exactly at the limit: x + y = 2^n - 1 and 2^n
+        let y = (maxx - x) & maxy;
+        ps.push((x, y));
+        ps.push((x, y.wrapping_add(1) & maxy));
+    }
+    rng.shuffle(&mut ps[..]);
+    // keep the corners in front
+    let mut front = vec![(0, 0), (maxx, maxy), (maxx, 0), (0, maxy), (maxx, 1 & maxy), (1 & maxx, maxy), (maxx & maxy, maxx & maxy)];
+    front.extend(ps);
+    front.truncate(cap.saturating_sub(cap / 4));
+    while front.len() < cap {
+        front.push((rand_bits(rng, n), rand_bits(rng, m)));
+    }
+    front.into_iter().unzip()
+}
+
+fn exhaustive(n: usize, m: usize) -> (Vec<u128>, Vec<u128>) {
+    let mut xs = vec![];
+    let mut ys = vec![];
+    for x in 0..(1u128 << n) {
+        for y in 0..(1u128 << m) {
+            xs.push(x);
+            ys.push(y);
+        }
+    }
+    (xs, ys)
+}
+
+fn gen_small(_rng: &mut Rng, thorough: bool, out: &mut Vec<String>) {
+    // exhaustive operand pairs for all (n, m) with n, m <= 4: 2^(n+m) <= 256 lanes in one run
+    for mode in ["sh", "mal"] {
+        for n in 0..=4usize {
+            for m in 0..=4usize {
+                let (xs, ys) = exhaustive(n, m);
+                let (xl, yl) = (nat_list(&xs), nat_list(&ys));
+                for op in ["add", "satadd", "gt", "mulint"] {
+                    if op == "mulint" && m == 0 {
+                        if n == 1 && mode == "sh" {
+                            out.push(format!("c07.{op} {mode} 256 {n} {m} {xl} {yl}")); // documents the panic on empty y
+                        }
+                        continue;
+                    }
+                    out.push(format!("c07.{op} {mode} 256 {n} {m} {xl} {yl}"));
+                }
+                // N = 1 protocols: one record per pair
+                if !(n == 0 && m == 0) || mode == "sh" {
+                    for op in ["sub", "geq"] {
+                        if thorough || (n + m) % 2 == 0 || n == m + 1 || n == 4 || m == 4 {
+                            out.push(format!("c07.{op} {mode} {n} {m} {xl} {yl}"));
+                        }
+                    }
+                }
+                if n == m && n >= 1 {
+                    out.push(format!("c07.or {mode} 256 {n} {m} {xl} {yl}"));
+                    out.push(format!("c07.and {mode} 256 {n} {m} {xl} {yl}"));
+                }
+            }
+        }
+        // sat_sub / select on the sub-byte boolean arrays: all pairs of BA3, BA4; (cond, t, f) for BA3
+        for w in [3usize, 5] {
+            let (xs, ys) = exhaustive(w, w);
+            out.push(format!("c07.satsub {mode} {w} {} {}", nat_list(&xs), nat_list(&ys)));
+        }
+        let (xs, ys) = exhaustive(3, 3);
+        for c in [0u128, 1] {
+            out.push(format!("c07.select {mode} 3 {} {} {}", nat_list(&vec![c; xs.len()]), nat_list(&xs), nat_list(&ys)));
+        }
+        out.push(format!("c07.vmul {mode} 256 0,0,1,1 0,1,0,1"));
+        out.push(format!("c07.vmul {mode} 1 1 1"));
+    }
+    // unequal lengths panic in bool_or / bool_and_8_bit; more than 8 bits panic in bool_and_8_bit
+    out.push("c07.or sh 8 3 2 1,2,3 1,2,3".into());
+    out.push("c07.and sh 8 2 3 1,2,3 1,2,3".into());
+    out.push("c07.and sh 8 9 9 1,2,3 1,2,3".into());
+}
+
+fn gen_wide(rng: &mut Rng, thorough: bool, out: &mut Vec<String>) {
+    let reps = if thorough { 6 } else { 1 };
+    for _ in 0..reps {
+        for mode in ["sh", "mal"] {
+            let widths: &[usize] = if mode == "sh" { &[1, 3, 8, 16, 32, 256] } else { &[1, 16, 32, 256] };
+            // equal widths that exist as boolean arrays, then unequal both ways
+            let shapes: &[(usize, usize)] = &[
+                (8, 8), (16, 16), (32, 32), (64, 64), (5, 5), (7, 7), (20, 20), (112, 112), (127, 127),
+                (8, 3), (3, 8), (16, 5), (5, 16), (32, 8), (8, 32), (64, 32), (32, 64), (1, 9), (9, 1), (0, 7), (7, 0), (40, 33),
+            ];
+            for (k, &(n, m)) in shapes.iter().enumerate() {
+                let w = widths[k % widths.len()];
+                let big = if w == 256 { 256 } else { w };
+                let (xs, ys) = pairs(rng, n, m, big);
+                let (xl, yl) = (nat_list(&xs), nat_list(&ys));
+                for op in ["add", "satadd", "gt"] {
+                    out.push(format!("c07.{op} {mode} {w} {n} {m} {xl} {yl}"));
+                }
+                // the unvectorised protocols: a handful of records
+                let cnt = if thorough { 64 } else { 32 }; // the DZKP batch size must be a power of two
+                let (xs, ys) = pairs(rng, n, m, cnt);
+                let (xl, yl) = (nat_list(&xs), nat_list(&ys));
+                out.push(format!("c07.sub {mode} {n} {m} {xl} {yl}"));
+                out.push(format!("c07.geq {mode} {n} {m} {xl} {yl}"));
+                if n + m <= 48 && m >= 1 {
+                    let (xs, ys) = pairs(rng, n, m, big.min(64));
+                    out.push(format!("c07.mulint {mode} {w} {n} {m} {} {}", nat_list(&xs), nat_list(&ys)));
+                }
+                if n == m && n <= 64 {
+                    let (xs, ys) = pairs(rng, n, m, big.min(64));
+                    out.push(format!("c07.or {mode} {w} {n} {m} {} {}", nat_list(&xs), nat_list(&ys)));
+                    if n <= 8 {
+                        out.push(format!("c07.and {mode} {w} {n} {m} {} {}", nat_list(&xs), nat_list(&ys)));
+                    }
+                }
+            }
+            for w in [3usize, 5, 8, 16, 20, 32, 64] {
+                let cnt = if thorough { 128 } else { 32 };
+                let (xs, ys) = pairs(rng, w, w, cnt);
+                out.push(format!("c07.satsub {mode} {w} {} {}", nat_list(&xs), nat_list(&ys)));
+                let cs: Vec<u128> = (0..cnt).map(|i| if i < 4 { (i % 2) as u128 } else { u128::from(rng.bool()) }).collect();
+                out.push(format!("c07.select {mode} {w} {} {} {}", nat_list(&cs), nat_list(&xs), nat_list(&ys)));
+            }
+        }
+    }
+}
+
+const FIELDS: &[(&str, u32, u128)] = &[
+    // name, bits, modulus (0 for binary fields)
+    ("Fp31", 5, 31),
+    ("Fp32BitPrime", 32, 4_294_967_291),
+    ("Fp61BitPrime", 61, 2_305_843_009_213_693_951),
+    ("Boolean", 1, 0),
+    ("Gf2", 1, 0),
+    ("Gf3Bit", 3, 0),
+    ("Gf8Bit", 8, 0),
+    ("Gf9Bit", 9, 0),
+    ("Gf20Bit", 20, 0),
+    ("Gf32Bit", 32, 0),
+    ("Gf40Bit", 40, 0),
+];
+
+fn gen_fields(rng: &mut Rng, thorough: bool, out: &mut Vec<String>) {
+    for &(f, bits, p) in FIELDS {
+        let card: u128 = if p != 0 { p } else { 1u128 << bits };
+        let (xs, ys): (Vec<u128>, Vec<u128>) = if card <= 32 {
+            let mut xs = vec![];
+            let mut ys = vec![];
+            for a in 0..card {
+                for b in 0..card {
+                    xs.push(a);
+                    ys.push(b);
+                }
+            }
+            (xs, ys)
+        } else {
+            let mut b: Vec<u128> = vec![0, 1, 2, card - 1, card - 2, card / 2, card / 2 + 1];
+            for k in 0..bits {
+                b.push((1u128 << k) % card);
+                b.push(((1u128 << k) + 1) % card);
+            }
+            b.sort_unstable();
+            b.dedup();
+            let mut ps = vec![];
+            for &x in &b {
+                for &y in &b {
+                    if x < 3 || y < 3 || x + 3 > card || y + 3 > card || (x ^ y) % 3 == 0 {
+                        ps.push((x, y));
+                    }
+                }
+            }
+            rng.shuffle(&mut ps[..]);
+            ps.truncate(if thorough { 600 } else { 120 });
+            for _ in 0..(if thorough { 400 } else { 80 }) {
+                ps.push((rng.next_u128() % card, rng.next_u128() % card));
+            }
+            ps.into_iter().unzip()
+        };
+        out.push(format!("c07.mul {f} {} {}", nat_list(&xs), nat_list(&ys)));
+        out.push(format!("c07.orf {f} 0,0,1,1 0,1,0,1"));
+        for v in [0u128, 1, card - 1] {
+            out.push(format!("c07.known {f} {v}"));
+        }
+        for to in 1..=3 {
+            let vs: Vec<u128> = (0..8).map(|i| if i < 3 { [0, 1, card - 1][i] } else { rng.next_u128() % card }).collect();
+            out.push(format!("c07.reshare {f} {to} {}", nat_list(&vs)));
+        }
+    }
+}
+
+fn gen_agg(rng: &mut Rng, thorough: bool, out: &mut Vec<String>) {
+    // (mode, B, OV bits): instantiations compiled above
+    let insts: &[(&str, usize, usize)] = &[
+        ("sh", 8, 8), ("sh", 16, 8), ("sh", 32, 16), ("sh", 256, 32), ("sh", 32, 3), ("sh", 32, 5),
+        ("mal", 16, 8), ("mal", 32, 16), ("mal", 256, 32), ("mal", 32, 3), ("mal", 32, 5),
+    ];
+    for &(mode, b, w) in insts {
+        let mut shapes: Vec<(usize, usize)> = vec![]; // (rows, tv)
+        for rows in [0usize, 1, 2, 3, 4, 5, 7, 8, 9, 16, 17, 31] {
+            for tv in [1usize, 2, 3, w.saturating_sub(1).max(1), w] {
+                if tv <= w {
+                    shapes.push((rows, tv));
+                }
+            }
+        }
+        shapes.sort_unstable();
+        shapes.dedup();
+        if !thorough {
+            // thin: keep every shape for the small output types, a third for the others
+            let keep_all = w <= 5;
+            let mut k = 0;
+            shapes.retain(|_| {
+                k += 1;
+                keep_all && k % 2 == 0 || k % 4 == 0
+            });
+        }
+        for (rows, tv) in shapes {
+            let maxv = (1u128 << tv) - 1;
+            let data: Vec<Vec<u128>> = (0..rows)
+                .map(|r| {
+                    (0..b.min(16))
+                        .map(|c| match c {
+                            0 => 0,
+                            1 => maxv,                                  // saturates quickly
+                            2 => u128::from(r == 0),                     // a single one
+                            3 => if r % 2 == 0 { maxv } else { 0 },
+                            4 => 1,                                      // counts rows
+                            5 => if r + 1 == rows { maxv } else { 0 },   // only the odd pass-through row
+                            _ => rand_bits(rng, tv),
+                        })
+                        .collect()
+                })
+                .collect();
+            let enc = if data.is_empty() { "-".to_string() } else { data.iter().map(|r| nat_list(r)).collect::<Vec<_>>().join("/") };
+            out.push(format!("c07.agg {mode} {b} {w} {tv} {enc}"));
+        }
+    }
+}
+
+#[test]
+fn verif_c07_small() {
+    run_suite("c07_small", |rng, th| { let mut o = vec![]; gen_small(rng, th, &mut o); o }, exec);
+}
+
+#[test]
+fn verif_c07_wide() {
+    run_suite("c07_wide", |rng, th| { let mut o = vec![]; gen_wide(rng, th, &mut o); o }, exec);
+}
+
+#[test]
+fn verif_c07_fields() {
+    run_suite("c07_fields", |rng, th| { let mut o = vec![]; gen_fields(rng, th, &mut o); o }, exec);
+}
+
+#[test]
+fn verif_c07_agg() {
+    run_suite("c07_agg", |rng, th| { let mut o = vec![]; gen_agg(rng, th, &mut o); o }, exec);
+}
